@@ -8,7 +8,7 @@ import lightworks as lw
 
 from .. import kernel
 from ..circuit_ops import Env
-from ..ref_circuit import RefCircuit
+from ..ref_circuit import RefCircuit, compare_scatter, impl_scatter
 
 PERR = (lw.ParameterValueError, lw.ParameterBoundsError)
 
@@ -103,7 +103,7 @@ def automaton(env, acc, via_dict):
 # ---------------------------------------------------------------------------
 # part B: parameters inside circuits
 # ---------------------------------------------------------------------------
-TEMPLATES = ["bs", "ps", "loss", "bsloss", "group", "herald", "twice", "nested"]
+TEMPLATES = ["bs", "ps", "loss", "bsloss", "group", "herald", "twice", "nested", "pre_herald"]
 
 
 def make_template(name, p, p2, env):
@@ -128,6 +128,11 @@ def make_template(name, p, p2, env):
         s = lw.Circuit(2); s.bs(0, reflectivity=p); s.ps(0, p2)
         m = lw.Circuit(3); m.add(s, 0, group=True); m.bs(1, 2, reflectivity=p2)
         c = lw.Circuit(4); c.add(m, 1, group=True); c.add(s, 0)
+    elif name == "pre_herald":     # parameters already in the host when a heralded sub-circuit is added
+        c = lw.Circuit(3); c.bs(0, 1, reflectivity=p); c.ps(2, p2); c.loss(1, p)
+        g = lw.Circuit(2); g.bs(0, reflectivity=p2); c.add(g, 1, group=True)
+        s = lw.Circuit(3); s.bs(0, reflectivity=env.R[1]); s.bs(1, 2, reflectivity=env.R2, convention="H"); s.herald(1, 1)
+        c.add(s, 0)
     else:
         raise KeyError(name)
     return c
@@ -163,12 +168,17 @@ def ref_template(name, v, v2, env):
         r = RefCircuit(4)
         r.bs(1, 2, v); r.ps(1, v2); r.bs(2, 3, v2)
         r.bs(0, 1, v); r.ps(0, v2)
+    elif name == "pre_herald":
+        if not (unit(v) and unit(v2)): return None
+        r = RefCircuit(3); r.bs(0, 1, v); r.ps(2, v2); r.loss(1, v); r.bs(1, 2, v2)
+        s = RefCircuit(3); s.bs(0, 1, env.R[1]); s.bs(1, 2, env.R2, "H"); s.herald(1, 1, 1)
+        r.add(s, 0)
     else:
         raise KeyError(name)
     return r
 
 
-N_PARAMS = {"bs": 1, "ps": 1, "loss": 1, "bsloss": 1, "group": 2, "herald": 2, "twice": 2, "nested": 2}
+N_PARAMS = {"bs": 1, "ps": 1, "loss": 1, "bsloss": 1, "group": 2, "herald": 2, "twice": 2, "nested": 2, "pre_herald": 2}
 
 
 class World:
@@ -252,9 +262,11 @@ def check_world(w, case, acc):
         if err is not None:
             acc.violation("valid_values_do_not_compile", sub, {"error": repr(err.__cause__)})
             continue
-        if u.shape != ref.M.shape or not np.allclose(u, ref.M, atol=1e-9):
+        # compare as heralded transformations (ancilla positions are the implementation's business)
+        verdict, wit = compare_scatter(impl_scatter(c), ref.scatter(), 1e-9)
+        if verdict != "ok":
             acc.violation("unitary_not_at_current_values" if item["kind"] == "live" else "frozen_copy_changed",
-                          sub, {"max_err": float(np.abs(u - ref.M).max()) if u.shape == ref.M.shape else None})
+                          sub, {"verdict": verdict, "witness": wit})
         ps = c.get_all_params()
         if item["kind"] == "frozen":
             if ps:
